@@ -56,7 +56,7 @@ theorem fullLinks_linked {d : QueryDoc} {y : Selection} (h : InDocSel d (.sel y)
 theorem fullLinks_linkedAll {d : QueryDoc} {sels : Selections} (h : ∀ y, InSels sels (.sel y) → InDocSel d (.sel y)) :
     LinkedAll (fullLinks d) d sels :=
   ⟨fun y hy => fullLinks_linked (h y hy),
-   fun _ g _ hg y hy => fullLinks_linked (Or.inr ⟨g, fragForName_mem hg, hy⟩)⟩
+   fun _ g _ hg _ hy => fullLinks_linked (Or.inr ⟨g, fragForName_mem hg, hy⟩)⟩
 
 /-- the nodes of a selection set of `Spec.docSets` are nodes of the document -/
 theorem docSets_inDoc {s : Schema} {d : QueryDoc} {t : Spec.TSet} (ht : t ∈ Spec.docSets s d) :
